@@ -88,6 +88,45 @@ pub fn observe(bytes: &[u8]) -> Obs {
     }
 }
 
+/// The same file through the typed iterator (`into_deser_iter`), into the universal deserialize_any
+/// type: (opened, items before the first error, errors, items yielded after the first error).
+pub fn observe_typed(bytes: &[u8]) -> Result<(bool, usize, usize, usize), String> {
+    guarded(|| {
+        let reader = match Reader::new(bytes) {
+            Ok(r) => r,
+            Err(_) => return (false, 0, 0, 0),
+        };
+        let (mut n, mut errors, mut after) = (0usize, 0usize, 0usize);
+        // bounded: an iterator that is not latched after an error could repeat it for ever
+        for item in reader.into_deser_iter::<crate::c06::Dyn>().take(200_000) {
+            if errors > 0 {
+                after += 1;
+                if after > 1000 {
+                    break;
+                }
+            }
+            match item {
+                Ok(_) => {
+                    if errors == 0 {
+                        n += 1
+                    }
+                }
+                Err(_) => errors += 1,
+            }
+        }
+        (true, n, errors, after)
+    })
+}
+
+/// The typed iterator must deliver as many items, report as many errors and stop as the value iterator does.
+fn typed_agrees(bytes: &[u8], obs: &Obs) -> Result<(), String> {
+    match observe_typed(bytes) {
+        Err(p) => Err(format!("typed iterator (into_deser_iter) panicked: {p}")),
+        Ok(t) if t == (obs.open_ok, obs.values.len(), obs.errors, obs.after_error) => Ok(()),
+        Ok(t) => Err(format!("typed iterator (into_deser_iter) delivered (opened, items, errors, items after the first error) = {t:?}, the value iterator {:?}", (obs.open_ok, obs.values.len(), obs.errors, obs.after_error))),
+    }
+}
+
 fn prefix_values(fc: &FileCase, nblocks: usize) -> Vec<Value> {
     fc.blocks[..nblocks].iter().flatten().cloned().collect()
 }
@@ -136,21 +175,30 @@ fn varint_len(b: &[u8]) -> usize {
 
 pub fn run(tier: Tier, replay: Option<&J>) -> i32 {
     let start = Instant::now();
-    let counts: Vec<usize> = vec![1, 2, 100];
-    let mut cases: Vec<(usize, SchemaKit, &'static str, Codec)> = vec![];
-    for kit in kits() {
-        for (cn, c) in codecs() {
-            cases.push((cases.len(), kit.clone(), cn, c));
+    // block shapes: object counts per block (100 needs a two-byte count varint, 8200 a three-byte one)
+    let shapes: Vec<Vec<usize>> = match tier {
+        Tier::Quick => vec![vec![1, 2, 100], vec![64], vec![3, 1]],
+        Tier::Thorough => vec![vec![1, 2, 100], vec![64], vec![3, 1], vec![1], vec![1, 1, 1, 1, 1], vec![2, 8200, 1]],
+    };
+    // alterations of a marker / magic byte: three (quick) or every other byte value (thorough)
+    let nalt: usize = if tier == Tier::Quick { 3 } else { 255 };
+    let mut cases: Vec<(usize, SchemaKit, &'static str, Codec, Vec<usize>)> = vec![];
+    for counts in &shapes {
+        for kit in kits() {
+            for (cn, c) in codecs() {
+                cases.push((cases.len(), kit.clone(), cn, c, counts.clone()));
+            }
         }
     }
+    let counts = shapes.clone();
     let only: Option<usize> = replay.and_then(|r| r["file_idx"].as_u64()).map(|x| x as usize);
     let st = cases
         .par_iter()
         .filter(|c| only.is_none_or(|o| o == c.0))
-        .map(|(idx, kit, cn, codec)| {
+        .map(|(idx, kit, cn, codec, counts)| {
             let mut st = Stats::default();
             let schema = Schema::parse_str(kit.text).expect("kit schema");
-            let (bytes, blocks) = match build_file(kit, &schema, *codec, &counts) {
+            let (bytes, blocks) = match build_file(kit, &schema, *codec, counts) {
                 Ok(x) => x,
                 Err(e) => {
                     st.violate((*idx as u64) << 32, "could not build the file", json!({"schema": kit.name, "codec": cn, "error": e}), json!({"file_idx": idx}));
@@ -164,8 +212,8 @@ pub fn run(tier: Tier, replay: Option<&J>) -> i32 {
                     return st;
                 }
             };
-            let fc = FileCase { label: format!("{}/{}", kit.name, cn), bytes, blocks, layout };
-            let label = json!({"schema": kit.name, "codec": cn, "file_len": fc.bytes.len(), "header_end": fc.layout.header_end, "block_ends": fc.layout.blocks.iter().map(|b| b.end).collect::<Vec<_>>()});
+            let fc = FileCase { label: format!("{}/{}/{:?}", kit.name, cn, counts), bytes, blocks, layout };
+            let label = json!({"schema": kit.name, "codec": cn, "block_object_counts": counts, "file_len": fc.bytes.len(), "header_end": fc.layout.header_end, "block_ends": fc.layout.blocks.iter().map(|b| b.end).collect::<Vec<_>>()});
             // sanity: the intact file reads back completely
             let full = observe(&fc.bytes);
             if !(full.open_ok && full.errors == 0 && full.values == prefix_values(&fc, fc.blocks.len())) {
@@ -184,7 +232,7 @@ pub fn run(tier: Tier, replay: Option<&J>) -> i32 {
                 st.evaluations += 1;
                 let obs = observe(&fc.bytes[..cut]);
                 st.transitions += (obs.values.len() + obs.errors + 1) as u64;
-                match judge_cut(&fc, cut, &obs) {
+                match judge_cut(&fc, cut, &obs).and_then(|_| typed_agrees(&fc.bytes[..cut], &obs).map_err(|m| (m, None))) {
                     Ok(()) => {
                         st.outcome(if !obs.open_ok { "cut-header-err" } else if obs.errors == 0 { "cut-boundary-clean" } else { "cut-prefix-then-error" });
                         st.class(format!("{}|{}|{}|{}", fc.label, obs.open_ok, obs.values.len(), obs.errors));
@@ -216,23 +264,28 @@ pub fn run(tier: Tier, replay: Option<&J>) -> i32 {
                 }
             }
             for (kind, off, k) in sites {
-                for alt in 0..3 {
+                for alt in 0..nalt {
                     if let Some(r) = replay {
                         if r["alter_offset"].as_u64() != Some(off as u64) || r["alt"].as_u64() != Some(alt as u64) {
                             continue;
                         }
                     }
                     let mut m = fc.bytes.clone();
-                    let newb = match alt {
-                        0 => m[off] ^ 0x01,
-                        1 => m[off] ^ 0x80,
-                        _ => 0,
+                    let newb = if nalt == 3 {
+                        match alt {
+                            0 => m[off] ^ 0x01,
+                            1 => m[off] ^ 0x80,
+                            _ => 0,
+                        }
+                    } else {
+                        // every other byte value
+                        m[off].wrapping_add(1 + alt as u8)
                     };
                     if newb == m[off] {
                         continue;
                     }
                     m[off] = newb;
-                    let order = (*idx as u64) << 32 | 1 << 31 | (off as u64) << 2 | alt as u64;
+                    let order = (*idx as u64) << 40 | 1 << 39 | (off as u64) << 8 | alt as u64;
                     st.states += 1;
                     st.evaluations += 1;
                     let obs = observe(&m);
@@ -265,6 +318,7 @@ pub fn run(tier: Tier, replay: Option<&J>) -> i32 {
                             }
                         }
                     };
+                    let verdict = verdict.and_then(|_| typed_agrees(&m, &obs));
                     match verdict {
                         Ok(()) => {
                             st.outcome(&format!("alter-{kind}-rejected"));
@@ -284,8 +338,8 @@ pub fn run(tier: Tier, replay: Option<&J>) -> i32 {
         id: "C14".into(),
         tier,
         level: "fault_enumeration",
-        rule: "for every (schema, codec) a real three-block file (object counts 1, 2, 100 - the last needs a two-byte count) is cut at every byte offset and has every byte of every sync-marker occurrence and of the magic altered three ways (^01, ^80, :=00); each damaged copy is read with the real Reader; a class is (file, opened?, values delivered, errors) resp. (file, site kind, block)".into(),
-        bounds: json!({"files": cases.len(), "block_counts": counts, "schemas": ["null","int","string","record"], "alterations": ["xor 01", "xor 80", "zero"]}),
+        rule: "for every (schema, codec) real files of several block shapes (object counts per block as listed in the bounds: 100 needs a two-byte count, 8200 a three-byte one) are cut at every byte offset and has every byte of every sync-marker occurrence and of the magic altered (quick: ^01, ^80, :=00; thorough: to every other byte value); each damaged copy is read with the real Reader; a class is (file, opened?, values delivered, errors) resp. (file, site kind, block)".into(),
+        bounds: json!({"files": cases.len(), "block_counts": counts, "schemas": ["null","int","string","record"], "alterations": if nalt == 3 { json!(["xor 01", "xor 80", "zero"]) } else { json!("every other byte value") }}),
         assumptions: vec!["block boundaries are taken from the independent layout parser refocf".into()],
         exhaustive: replay.is_none(),
         extra: json!({}),
